@@ -9,7 +9,6 @@ package main
 
 import (
 	"errors"
-	"fmt"
 	"hash"
 	"io"
 	"os"
@@ -23,27 +22,68 @@ var vQueue []gts.Sequence
 var vQPos int
 var vOut []gts.Sequence
 
+// Scanner model: every scanner a command creates reads from a queue of harness-built records.  The scanners
+// created before the main input's (the guest of insert, the query of search, the host of infix) take their
+// records from vSecondary, in creation order, and drain their reader first (the command hashes the file
+// bytes on the way); the main scanner reads vQueue.
+var vScanners []*seqio.Scanner
+var vScanQ [][]gts.Sequence
+var vScanPos []int
+var vScanLast int
+var vSecondary [][]gts.Sequence
+
+func vResetScanners() {
+	vScanners, vScanQ, vScanPos, vScanLast = nil, nil, nil, 0
+}
+
 //verif:model github.com/go-gts/gts/seqio.NewAutoScanner group=scan
 func vm_NewAutoScanner(r io.Reader) *seqio.Scanner {
+	s := new(seqio.Scanner)
+	k := len(vScanners)
+	vScanners = append(vScanners, s)
+	if k < len(vSecondary) {
+		buf := make([]byte, 64)
+		for {
+			if _, err := r.Read(buf); err != nil {
+				break
+			}
+		}
+		vScanQ = append(vScanQ, vSecondary[k])
+	} else {
+		vScanQ = append(vScanQ, vQueue)
+	}
+	vScanPos = append(vScanPos, 0)
 	vQPos = 0
-	return new(seqio.Scanner)
+	return s
 }
 
 //verif:model (*github.com/go-gts/gts/seqio.Scanner).Scan group=scan
 func vm_Scan(s *seqio.Scanner) bool {
-	if vQPos < len(vQueue) {
-		vQPos++
+	k := -1
+	for i, x := range vScanners {
+		if x == s {
+			k = i
+		}
+	}
+	if k < 0 {
+		panic("model scanner: unknown scanner")
+	}
+	vScanLast = k
+	if vScanPos[k] < len(vScanQ[k]) {
+		vScanPos[k]++
+		vQPos = vScanPos[k]
 		return true
 	}
 	return false
 }
 
 //verif:model (github.com/go-gts/gts/seqio.Scanner).Value group=scan
-func vm_Value(s seqio.Scanner) gts.Sequence { return vQueue[vQPos-1] }
+func vm_Value(s seqio.Scanner) gts.Sequence { return vScanQ[vScanLast][vScanPos[vScanLast]-1] }
 
 //verif:model (github.com/go-gts/gts/seqio.Scanner).Err group=scan
 func vm_Err(s seqio.Scanner) error {
-	if vScanFail && vQPos >= len(vQueue) {
+	main := vScanLast >= len(vSecondary)
+	if vScanFail && main && vScanPos[vScanLast] >= len(vScanQ[vScanLast]) {
 		return errScanModel
 	}
 	return nil
@@ -109,6 +149,7 @@ func vRunCmd(name string, fn flags.Function, args []string, in []gts.Sequence) (
 	ctx := &flags.Context{Name: []string{"gts", name}, Desc: "", Args: args}
 	if vIsModel() {
 		vQueue, vQPos, vOut = in, 0, nil
+		vResetScanners()
 		err := fn(ctx)
 		return vOut, err
 	}
@@ -260,21 +301,6 @@ func vGeneByName(ff []gts.Feature, name string) (gts.Feature, bool) {
 
 // ---- cache-aware driver (C14) ---------------------------------------------------------
 
-var vPayloads [][]byte
-
-// injective structural encoding of the payload (json.Marshal is not interpreted)
-//
-//verif:model github.com/go-gts/gts/cmd/gts.encodePayload group=payload
-func vm_encodePayload(tt []tuple) []byte {
-	s := ""
-	for _, t := range tt {
-		s += fmt.Sprintf("%v=%v;", t[0], t[1])
-	}
-	p := []byte(s)
-	vPayloads = append(vPayloads, p)
-	return p
-}
-
 // vRunCached: one invocation of a command in a "fresh process" sharing the cache directory.
 // recs are the records on stdin; fail makes the input malformed after them.
 func vRunCached(name string, fn flags.Function, args []string, recs []gts.Sequence, stdin []byte, fail bool, home string) ([]byte, bool) {
@@ -282,6 +308,7 @@ func vRunCached(name string, fn flags.Function, args []string, recs []gts.Sequen
 	if vIsModel() {
 		vResetStdio(stdin)
 		vQueue, vQPos, vOut, vScanFail = recs, 0, nil, fail
+		vResetScanners()
 		err := fn(ctx)
 		closeCaches(err == nil) // what main() does after the command returns
 		out, _ := vFSRead("/dev/stdout")
